@@ -1,4 +1,5 @@
 import NixModel.Pure.NdStore
+import NixModel.Pure.NdSeq
 import NixModel.Generated.DataSetShape
 import NixModel.Generated.DataSetDType
 
@@ -34,5 +35,17 @@ def spelledArg (s : Nix.NdSpell.Spelling) : Option DTypeArg :=
 def createSpelled (s : Nix.NdSpell.Spelling) (shape : Option (List Nat)) (data : Option Arr) (compr : Bool) :
     Option (Except IoErr DArr) :=
   (spelledArg s).map fun a => (createRules (some a) (shape.map (·.map Int.ofNat)) data).bind (createFrom compr)
+
+/-- `H5DataSet.write_data(seq, slc)` through the compiled `h5WriteData`: the empty-source guard on the sequence,
+h5py's cast of the sequence to the element type, the write of the array it got -/
+def writeSeqGen (A : DArr) (d : Arr) (slc : IndexArg) : Option (Except IoErr DArr) :=
+  if (arrIsEmpty d && optTruthy (h5SelectedCount A slc)) then some (.error (.err .valueError))
+  else (castSeq A.dtype d).map fun r => r.bind fun d' => h5WriteData A d' slc
+
+/-- one step whose source is a sequence (list, tuple, range, Python scalar), through the compiled definitions -/
+def stepSeqGen (A : DArr) : TStep → Option Run
+  | .write d => (writeSeqGen A d .none).map (runOf A)
+  | .assign ix d => (writeSeqGen A d ix).map (runOf A)
+  | s => some (stepGen A s)
 
 end Nix.Nd
